@@ -120,6 +120,22 @@ def _replay_history(d, mg):
 
 
 def replay(d):
+    """The real search iterates over SETS of column objects (guess.neighbour, donecols), whose
+    order depends on the objects' addresses; a defect whose effect depends on that order shows
+    in some memory layouts only.  The replay therefore repeats the concrete run in a few
+    layouts (dummy allocations before the geometry is built) and reports a violation if ANY
+    of them shows it - each is a run of the real code on the same input."""
+    last = None
+    keep = []
+    for pad in (0, 1, 2, 3, 5, 7, 11, 13):
+        keep.append([object() for _ in range(pad * 41)])
+        last = _replay_once(d)
+        if last[0]:
+            return last if pad == 0 else (True, last[1] + ' [memory layout %d]' % pad)
+    return last
+
+
+def _replay_once(d):
     import numpy as np
     import mulgrids as mg
     if d['fn'] == 'history':
